@@ -68,7 +68,12 @@ def check_tmp(ctx):
                 ctx.violate(R, st, label, "no try/finally follows the creation: the cache file is never removed on a failing path", key="no-try")
                 continue
             tr = lst[k]
-            bad_between = [s for s in between if not (isinstance(s, ast.Expr) and isinstance(s.value, ast.Call) and canon(s.value.func) == var + ".close" and not s.value.args)]
+            def harmless(s):
+                if isinstance(s, ast.Expr) and isinstance(s.value, ast.Call) and canon(s.value.func) == var + ".close" and not s.value.args:
+                    return True
+                # binding a constant / an existing name to a local cannot raise
+                return isinstance(s, ast.Assign) and all(isinstance(t, ast.Name) for t in s.targets) and isinstance(s.value, (ast.Constant, ast.Name))
+            bad_between = [s for s in between if not harmless(s)]
             ctx.check(R, st, "only close() between creation and try", not bad_between,
                       "statement `%s` runs after the file exists but outside the try/finally: if it raises the file is leaked" % (A.unparse(bad_between[0])[:80] if bad_between else ""), key="between")
             # finally must unlink unconditionally
@@ -91,6 +96,10 @@ def check_tmp(ctx):
                 idx = tr.finalbody.index(unl)
                 pre = [s for s in tr.finalbody[:idx] if not isinstance(s, ast.Pass)]
                 ctx.check(R, unl, "finally unlinks the temp file", not pre, "statement `%s` precedes the unlink inside finally and can prevent it" % (A.unparse(pre[0])[:60] if pre else ""), key="finally")
+            # a return / break / continue inside finally discards the in-flight exception
+            jumps = [x for s in tr.finalbody for x in A.walk_local(s) if isinstance(x, (ast.Return, ast.Break, ast.Continue))]
+            ctx.check(R, tr, "finally does not swallow the exception", not jumps,
+                      "`%s` inside the finally block discards an in-flight exception: a failing wrapped call returns normally" % (A.unparse(jumps[0])[:40] if jumps else ""), key="finally-jump")
             # the name must not be rebound inside the try
             reb = [s for s in A.walk_local(tr) if isinstance(s, ast.Name) and isinstance(s.ctx, ast.Store) and s.id == var]
             ctx.check(R, tr, "temp handle not rebound", not reb, "`%s` is reassigned inside the try: finally unlinks a different file" % var, key="rebound")
@@ -127,6 +136,10 @@ def check_swallow(ctx, cg, reach):
                             ctx.ok(R, h, label, "allow-listed: " + ALLOWED_HANDLERS[(key[0], key[1], ty)], nontrivial=False)
                         else:
                             ctx.violate(R, h, label, "swallows a failure on a sampling path (body: `%s`)" % A.unparse(h.body[0])[:60], key="swallow:%s:%s" % (key[1], ty))
+                if isinstance(t, ast.Try) and t.finalbody:
+                    jumps = [x for s_ in t.finalbody for x in A.walk_local(s_) if isinstance(x, (ast.Return, ast.Break, ast.Continue))]
+                    if jumps:
+                        ctx.violate(R, jumps[0], "finally block in %s does not swallow" % key[1], "`%s` inside finally discards any in-flight exception" % A.unparse(jumps[0])[:40], key="finally-jump:" + key[1])
                 if isinstance(t, ast.With):
                     for it in t.items:
                         if isinstance(it.context_expr, ast.Call) and (A.call_name(it.context_expr) or "").split(".")[-1] == "suppress":
